@@ -130,6 +130,7 @@ type chainMachine struct {
 	// history facts fed from observed responses
 	payCreated map[string]int64 // payment key -> height of creation
 	payClosed  map[string]int64 // payment key -> height at which it stopped being open
+	leaseEnded map[string]int64 // payment key of a lease -> height at which the lease stopped being active
 	deposits   map[string]sdk.Int
 	twin       *AkashApp // optional second instance (C07)
 }
@@ -394,6 +395,18 @@ func (m *chainMachine) trackHistory(tx *cmTx) {
 		}
 		if _, ok := prev[k]; !ok && p.State != etypes.PaymentOpen {
 			m.payClosed[k] = tx.height
+		}
+	}
+	if m.leaseEnded == nil {
+		m.leaseEnded = map[string]int64{}
+	}
+	for _, l := range tx.post.leases {
+		if l.State == mtypes.LeaseActive {
+			continue
+		}
+		k := cmPayKey(etypes.Payment{AccountID: dtypes.EscrowAccountForDeployment(l.LeaseID.DeploymentID()), PaymentID: mtypes.EscrowPaymentForLease(l.LeaseID)})
+		if _, seen := m.leaseEnded[k]; !seen {
+			m.leaseEnded[k] = tx.height
 		}
 	}
 }
